@@ -663,23 +663,24 @@ type HarnessSpec struct {
 }
 
 type HarnessResult struct {
-	Name      string
-	Paths     int
-	ByOutcome map[string]int
-	Decisions int
-	Queries   int
-	SolverS   float64
-	Viol      []Violation
-	KnownSeen map[string]int
-	Reached   map[string]int
-	Samples   []Sample
-	Problems  []string // unsupported / inconclusive messages (dedup)
-	Instrs    int
-	WallS     float64
-	Truncated bool
-	Funcs     map[string]int
-	Stubs     map[string]int
-	MaxDepth  int
+	Name                string
+	Paths               int
+	ByOutcome           map[string]int
+	Decisions           int
+	Queries             int
+	SolverS             float64
+	Viol                []Violation
+	KnownSeen           map[string]int
+	Reached             map[string]int
+	Samples             []Sample
+	Problems            []string // unsupported / inconclusive messages (dedup)
+	Instrs              int
+	WallS               float64
+	Truncated           bool
+	StoppedOnViolations bool
+	Funcs               map[string]int
+	Stubs               map[string]int
+	MaxDepth            int
 }
 
 func Explore(P *Program, h *HarnessSpec, workers int, sampleEvery int, maxSamples int) *HarnessResult {
@@ -725,7 +726,7 @@ func Explore(P *Program, h *HarnessSpec, workers int, sampleEvery int, maxSample
 				for len(frontier) == 0 && active > 0 {
 					cond.Wait()
 				}
-				if len(frontier) == 0 || res.Truncated {
+				if len(frontier) == 0 || res.Truncated || res.StoppedOnViolations {
 					mu.Unlock()
 					cond.Broadcast()
 					break
@@ -773,6 +774,17 @@ func Explore(P *Program, h *HarnessSpec, workers int, sampleEvery int, maxSample
 				}
 				if h.MaxPaths > 0 && res.Paths >= h.MaxPaths && len(frontier) > 0 {
 					res.Truncated = true
+				}
+				// enough counterexample candidates outside the known regions: the verdict of
+				// this harness is decided by their native replay, no need to finish the sweep
+				nv := 0
+				for _, v := range res.Viol {
+					if v.Known == "" {
+						nv++
+					}
+				}
+				if nv >= 6 && len(frontier) > 0 {
+					res.StoppedOnViolations = true
 				}
 				mu.Unlock()
 				cond.Broadcast()
